@@ -105,6 +105,19 @@ def run_store(t, v, ops, lazy=False):
                     setattr(pv, 'f%d' % int(op[2]), cv)
                 else:
                     pv[int(op[2])] = cv
+            elif o == 'mutv':
+                # view.f_k.value().<op>: the union view and its value view are temporaries (nothing else refers to them)
+                import gc
+                pt, pv = views[int(op[1])]
+                ut, uv = child_of(pt, pv, int(op[2]))
+                if kind(ut) != 'union':
+                    raise ValueError("not a union")
+                vt, vv = child_of(ut, uv, 0)
+                if isinstance(vt, str) or kind(vt) in ('Bv', 'Bl') or vv is None:
+                    raise ValueError("not a mutable value view")
+                del uv
+                gc.collect()
+                apply_op(vt, vv, op[4])
             elif o == 'tmpsum':
                 # a throw-away copy of the view gets one element replaced by a SUMMARY-backed view of the same element
                 # (same root, no content below it): nothing that is held may change
@@ -122,6 +135,13 @@ def run_store(t, v, ops, lazy=False):
                     tmp.hash_tree_root()
                 except Exception:
                     pass
+                # ... and the view's own backing is summarised at a few positions through the public API, the result
+                # being discarded (a partial tree is a NEW tree)
+                for g_ in (2, 3, 4, 5, 6, 7, 2 * (2 + int(op[2])), 4 + int(op[2])):
+                    try:
+                        views[int(op[1])][1].get_backing().summarize_into(g_)().merkle_root()
+                    except Exception:
+                        pass
             elif o == 'copy':
                 vt, vv = views[int(op[1])]
                 parent[len(views)] = None
@@ -141,6 +161,7 @@ def run_store(t, v, ops, lazy=False):
         out.append('%d.views=%s' % (k, ','.join(view_str(vt, vv) for vt, vv in views)))
         out.append('%d.snaps=%s' % (k, ','.join(snap_str(st, sn) for st, sn in snaps)))
         out.append('%d.hashes=%s' % (k, ''.join(hash_ok(vv) for vt, vv in views)))
+        out.append('%d.vbl=%s' % (k, ''.join(E(lambda: str(int(vv.value_byte_length() == len(vv.encode_bytes())))) for vt, vv in views)))
     if lazy:
         # snapshots first (their roots have never been computed), then the views
         out.append('end.snaps=%s' % ','.join(snap_str(st, sn) for st, sn in snaps))
